@@ -124,7 +124,9 @@ class C06(Monitor):
                 else:
                     p = f.promised
                     if not p or p % 2 or p <= s.snap['hi_peer']:
-                        v = rules.either(('conn', P), ('stream', P))
+                        # a promised id that is not new: connection error, or (the id belongs to a stream that was
+                        # reset) the stream error any frame on a reset stream gets
+                        v = rules.either(('conn', P), ('stream', P), ('stream', C.STREAM_CLOSED), ('conn', C.STREAM_CLOSED))
                     elif conformant(wire, 'request') is not None:
                         return
         if f.type == C.WINDOW_UPDATE and pre is not None and pre.state != 'closed' and pre.send_win + f.increment > MAXID:
